@@ -221,6 +221,9 @@ class EffectsAnalysis:
             base = self.av(e.value, st, ctx)
             if not base:
                 return base
+            if isinstance(e.slice, ast.Tuple) and all(k == 'C' for (k, p) in base):
+                # multi-dimensional subscript => ndarray, whose copy() is deep
+                return frozenset()
             basic = self._index_is_basic(e.slice, ctx['kinds'])
             if basic is False:
                 # advanced indexing copies; but elements of a container of
